@@ -301,7 +301,9 @@ class RGen:
                 self.features.add("identity_of_captured_value")
             if t.flag("subgraph_initializer", 3):
                 # sibling subgraphs use the same initializer name on purpose (they collide when lifted to the main graph)
-                bname = ["bias", "w_sub"][t.pick(2)]
+                # (version 4 also uses "w": lifted to the main graph it collides with a main-graph initializer, and the
+                # usual way out - "w_1" - is taken there as well)
+                bname = ["bias", "w_sub", "w", "w"][t.pick(4)] if self.gen >= 4 else ["bias", "w_sub"][t.pick(2)]
                 binits.append(nph.from_array(np.array([[0.5, 1, 2], [3, 4, 5]], dtype=np.float32) * (1 + t.pick(2)), name=bname))
                 res2 = self.fresh("bi")
                 bn.append(oh.make_node("Add", [res, bname], [res2], name=self.nname("Add")))
